@@ -165,9 +165,6 @@ def Atom.tokenErr : Atom → Option EvalErr
   | .pkg _ _ => some .notImplemented     -- PACKAGE_KEY comes first and is reported as "not implemented"
   | .time _ => some .valueError          -- int("UB1")
 
-def condKeys (e : Expr) : List (List Char) :=
-  e.atoms.filterMap fun a => match a with | .cond k => some k | _ => none
-
 /-- the environment `requirement_constraint_evaluation` builds from the evaluator's and the hints provider's answers -/
 def mkEnv (rcEnv : List Char → Option CFV) (hintEnv : List Char → Option String) : Env := fun k =>
   match catOf k with
